@@ -325,6 +325,69 @@ def h_sequence(first: int, sep: int, shard=None) -> None:
                 raise Violation(f"wrong-value :: sequence text {text!r}: elements {got!r}, expected {seq!r}")
 
 
+def _direct_parser(shape: int):
+    """containers whose item / value symbol is DIRECTLY a bracket-less template (no production in between): a row of a table,
+    the members of a group.  An occurrence with no items is the empty text and still one entry: an empty container"""
+    import ak.llparser as L
+    if shape == 0:      # table of rows, rows are words without delimiter
+        prods = {"OUTER": L.ListProds("[", "ROW", ",", "]", allow_final_delimiter=False), "ROW": L.ListProds(None, "WORD", None, None)}
+    elif shape == 1:    # map: group -> members, members delimited by ':'-free commas; pairs delimited by ';' would clash with E, use '@'
+        prods = {"OUTER": L.MapProds("{", "WORD", ":", "ROW", "@", "}", allow_final_delimiter=False), "ROW": L.ListProds(None, "WORD", ",", None)}
+    elif shape == 2:    # table of rows, rows are bracket-less maps
+        prods = {"OUTER": L.ListProds("[", "ROW", "@", "]", allow_final_delimiter=False), "ROW": L.MapProds(None, "WORD", ":", "WORD", ",", None)}
+    else:               # bracketed list of bracketed lists (control: nothing bracket-less)
+        prods = {"OUTER": L.ListProds("[", "ROW", ",", "]", allow_final_delimiter=False), "ROW": L.ListProds("[", "WORD", ",", "]")}
+    prods["E"] = [("@", "OUTER", ";")]
+    return L.LLParser(TOKENIZER, synonyms=dict(SYN), productions=prods)
+
+
+def h_direct(shape: int, n_rows: int, sep: int) -> None:
+    """rows of 0..2 entries each, 1..3 rows (row count and shape are choice variables, row contents swept)"""
+    import ak.llparser as L
+    reject_unless(0 <= shape < 4 and 1 <= n_rows <= 3 and 0 <= sep < len(SEPS))
+    shape, n_rows, sep = realize(shape), realize(n_rows), realize(sep)
+    with concrete():
+        parser = _direct_parser(shape)
+        words = ["a", "bb", "c"]
+        for sizes in itertools.product(range(3), repeat=n_rows):
+            toks = ["@", "{" if shape == 1 else "["]
+            exp: Any = {} if shape == 1 else []
+            for r, size in enumerate(sizes):
+                if r:
+                    toks.append("," if shape in (0, 3) else "@")
+                row_words = [words[(r + j) % 3] for j in range(size)]
+                if shape == 1:
+                    toks += [f"g{'xyz'[r]}", ":"]
+                if shape == 3:
+                    toks.append("[")
+                if shape == 2:
+                    for j, w in enumerate(row_words):
+                        toks += ([","] if j else []) + [w, ":", w + "v"]
+                    row_val: Any = {w: w + "v" for w in row_words}
+                else:
+                    for j, w in enumerate(row_words):
+                        toks += ([","] if j and shape != 0 else []) + [w]
+                    row_val = list(row_words)
+                if shape == 3:
+                    toks.append("]")
+                if shape == 1:
+                    exp[f"g{'xyz'[r]}"] = row_val
+                else:
+                    exp.append(row_val)
+            toks += ["}" if shape == 1 else "]", ";"]
+            if shape in (0, 2) and sizes == (0,):
+                exp = []        # '[ ]': an empty bracket pair is the empty container (statement), not one empty row
+            text = _join(toks, SEPS[sep])
+            what = f"container with directly nested {'bracket-less ' if shape < 3 else ''}rows (shape {shape}) text {text!r}"
+            try:
+                root = parser.parse(text)
+            except Exception as e:  # noqa
+                raise Violation(f"raises :: {what}: {type(e).__name__}: {e}")
+            got = unwrap(_outer_of(root))
+            if got != exp:
+                raise Violation(f"wrong-value :: {what}: value {got!r}, expected {exp!r}")
+
+
 LIST_OPTS = [
     {"brackets": True, "delimiter": True, "afd": None, "optional": None}, {"brackets": True, "delimiter": True, "afd": False, "optional": None},
     {"brackets": True, "delimiter": True, "afd": None, "optional": True}, {"brackets": True, "delimiter": True, "afd": False, "optional": True},
@@ -353,5 +416,6 @@ def jobs(tier: str) -> List[Job]:
     for afd in (True, False):
         js.append(Job(__name__, "h_map", shard={"opts": {"afd": afd, "optional": None, "brackets": False}, "n_max": 3}, budget_s=2400 if t else 100,
                       label=f"map:nobr+{'final' if afd else 'nofinal'}", must_exhaust=True))
+    js.append(Job(__name__, "h_direct", budget_s=600 if t else 100, label="directly-nested-bracketless", must_exhaust=True))
     js.append(Job(__name__, "h_sequence", shard={"n_max": 6 if t else 5}, budget_s=600 if t else 100, label="sequence", must_exhaust=True))
     return js
